@@ -52,7 +52,9 @@ int verif_fprintf(FILE *stream, const char *fmt, struct varg a, struct varg b, s
 #define fprintf(f, ...) \
   VERIF_PICK4(__VA_ARGS__, verif_fprintf3, verif_fprintf2, verif_fprintf1, verif_fprintf0)(f, __VA_ARGS__)
 
-/* printf(fmt[, a[, b[, c]]]) and sprintf(buf, fmt, ...) as used by util/econftool.c */
+/* printf(fmt[, a[, b[, c]]]) as used by util/econftool.c - only where asked for
+ * (lib/keyfile.c has a debug printf with more arguments) */
+#ifdef VERIF_SHIM_PRINTF
 int verif_printf(const char *fmt, struct varg a, struct varg b, struct varg c);
 #define verif_printf0(fmt) verif_printf(fmt, VARG_NONE, VARG_NONE, VARG_NONE)
 #define verif_printf1(fmt, a) verif_printf(fmt, VARG(a), VARG_NONE, VARG_NONE)
@@ -60,3 +62,4 @@ int verif_printf(const char *fmt, struct varg a, struct varg b, struct varg c);
 #define verif_printf3(fmt, a, b, c) verif_printf(fmt, VARG(a), VARG(b), VARG(c))
 #define printf(...) \
   VERIF_PICK4(__VA_ARGS__, verif_printf3, verif_printf2, verif_printf1, verif_printf0)(__VA_ARGS__)
+#endif
